@@ -434,6 +434,7 @@ class FakeSocket:
                     keep = 0
                 else:
                     keep -= len(seg[0])
+            self.trunc_effective = any(True for seg in segs) and (sum(len(x[0]) for x in segs) < net.sendinfo[(net.ctx.call, net.ctx.last)][1])
             if then == "eof":
                 self.peer_closed = True
             else:
@@ -445,6 +446,7 @@ class FakeSocket:
         return None
 
     stall_after = False
+    trunc_effective = False
 
     def recv(self, n):
         net = self.net
